@@ -194,7 +194,11 @@ func main() {
 	if *enumSize {
 		switch *prop {
 		case "C11":
-			fmt.Println(c11.EnumSize())
+			if *scenario == "lenenum" {
+				fmt.Println(c11.LenEnumSize())
+			} else {
+				fmt.Println(c11.EnumSize())
+			}
 		case "C18":
 			if *scenario == "stopenum" {
 				fmt.Println(c18.StopEnumSize())
